@@ -28,6 +28,14 @@ CHECKS = {
   "assumed: byte-level ghost file model and step contracts of (*os.File).WriteAt/Truncate, io.ReadAll/io.Copy on a *File, os.OpenFile; t does not modify its argument or the file (callee clause); "
   "linearizability of concurrent Read/Write/Transform is NOT decided by contracts: it follows on paper from the proved lock discipline plus flock exclusion (two-phase locking); Write's contents are left abstract (io.Copy)",
   "contract-based deductive verification with a single-failure ghost budget over atomic file steps (all failure points and length relations at once), closure contracts, call-site typestate obligations; z3/cvc5"),
+ "C13": ("5 C13",
+  "Contracts over ghost mtimes, a monotone clock and integer nanoseconds: used() leaves an existing file's mtime younger than (now - 1h) when no file operation fails; OutputFile calls it on the name it returns; "
+  "trimSubdir calls os.Remove only on Join(subdir, n) for listed names n ending in -a/-d whose mtime is before the cutoff (call-site obligation) and, when nothing fails, removes every such name (loop invariant); "
+  "Trim passes cutoff = now - 5d - 1h, performs no file-changing step at all when the last-trim record as read parses to a time within (-1h, 24h) of now, and otherwise (on success) rewrites the record; "
+  "lemma retention: an entry used within the last five days is never older than the cutoff.",
+  "assumed: time as mathematical nanoseconds (time.Unix overflow on absurd trim.txt values is outside the model), monotone clock readings (callee clause on c.now), extern contracts of os.Stat/Chtimes/Remove/Open, "
+  "Readdirnames returns every name of the directory; that the 256 subdirectory names are Join(dir, %02x) is not decided (fmt.Sprintf is uninterpreted), nor the textual content written to trim.txt",
+  "contract-based deductive verification: ghost fs/mtime/clock state, call-site obligations, ghost bindings of call results, loop invariants; z3/cvc5"),
  "C15": ("5 C15",
   "Contract on txtar.Write over a ghost file-system model: every file that exists afterwards and did not before lies at or below dir (lexically), "
   "files that existed are neither removed nor changed (the open uses O_CREATE|O_EXCL, checked as a call-site obligation), a nil error implies that no entry name was absolute or climbed out through '..', "
